@@ -6,6 +6,8 @@
  "mode": "dfcc", "enforce": "spawnphase/spawnphase_contract", "post_macro": "POST_SP",
  "replace_calls": {"fatal": "osm_oom"},
  "kind": "proof-const-unwind", "unwind": 9,
+ "variants": {"nb1": ["-DV_NBASE=1"], "nb2": ["-DV_NBASE=2"], "nb3": ["-DV_NBASE=3"], "nb4": ["-DV_NBASE=4"]},
+ "canary_variant": "nb3",
  "noreturn_macros": false, "stubs": ["os_model.c"], "link_repo": ["util.c"],
  "timeout": 200,
  "expects": ["postcondition", "assigns"],
@@ -13,7 +15,7 @@
              "posix_spawn_file_actions_adddup2(fd, 0) does not fail: spawnphase drops its result (driver.c:161); the failing case is unit DRV.spawnphase.dup2in",
              "util.c's fatal() (realloc failure inside arrayadd) ends the path",
              "flags.verbose is off (the -v listing is stdio only)",
-             "the command vector has 1..4 base words in a 32-byte array (growth through the real arrayadd is exercised); at most one earlier stage"]
+             "the command vector has 1..4 base words (one CBMC run each) in a 32-byte array (growth through the real arrayadd is exercised); phase = &stages[COMPILE]; at most one earlier stage"]
 }
 */
 #include "drv_common.h"
@@ -59,8 +61,14 @@ harness(void)
 	IN(int, in_fi); IN(int, in_pe); IN(int, in_fe0); IN(int, in_fe1); IN(int, in_di); IN(int, in_do); IN(int, in_sp);
 	ING(int, g_j);
 
-	__CPROVER_assume(in_s >= 0 && in_s < NSTAGES);
+	/* one CBMC run per base-command length; the stage is fixed (spawnphase treats *phase as an opaque record):
+	   both as symbolic values exhaust 10 GB */
+	__CPROVER_assume(in_s == COMPILE);
+#ifdef V_NBASE
+	__CPROVER_assume(in_nbase == V_NBASE);
+#else
 	__CPROVER_assume(in_nbase >= 1 && in_nbase <= 4);
+#endif
 	__CPROVER_assume(in_pidhi >= 1 && in_pidhi <= 15);
 	__CPROVER_assume(in_pe >= 0 && in_fe0 >= 0 && in_fe1 >= 0);      /* errno values are positive */
 	a = in_hasprev ? 1 : 0;
